@@ -48,6 +48,7 @@ var (
 	cWork         = simrt.RegisterCounter("op_frames_processed")
 	cSharedJobs   = simrt.RegisterCounter("op_shared_readonly_frames")
 	cMarshalArena = simrt.RegisterCounter("op_marshal_and_mic_on_frames_over_the_arena")
+	cReuseText    = simrt.RegisterCounter("op_used_versus_fresh_through_unmarshaltext_and_scan")
 	cOwnerUse     = simrt.RegisterCounter("used_value_has_numbers_flags_addresses_set_by_its_owner_before_the_next_decode")
 	cMarshalOnly  = simrt.RegisterCounter("op_marshal_only_inspects_decoded_and_owner_set_values")
 	cHandBuilt    = simrt.RegisterCounter("op_validate_and_marshal_on_hand_built_frames_in_unusual_states")
